@@ -1,7 +1,7 @@
 import vf
 from props import poly_common
 
-RULE = ("TLC enumerates every simple polygon of the general lattice (state space = partial simple paths, closed in canonical form, "
+RULE = ("Thin rings: the triples of Gen_Orient (generic 53-bit mantissas, exact sign of the 120-bit determinant from BigInt.tla) as rings a b c a in three rotations and reversed: winding_order / is_cw / is_ccw must follow the exact sign and orient must turn or keep the ring accordingly. TLC enumerates every simple polygon of the general lattice (state space = partial simple paths, closed in canonical form, "
         "0-2 holes strictly inside) with its exact integer shoelace area; replayed with every winding of shell and holes, rotated "
         "start vertex, repeated vertex, as Geometry, as Rect / Triangle / MultiPolygon / nested GeometryCollection, through "
         "orient(Default|Reversed) and under exact affine maps (offsets to 1e8, scalings 2^-20..2^40). Areas are integers/2 < 2^53, "
@@ -12,8 +12,13 @@ ASSUME = ["polygons have <= 6 shell vertices on the 4x4 lattice / <= 4 on the 5x
 
 
 def check(tier, seed, t0):
-    vf.simple_check("C05", tier, seed, t0, poly_common.poly_runs(tier), RULE, ASSUME,
-                    nontrivial=lambda c: len(c["holes"]) > 0 or len(c["ext"]) > 4)
+    runs = poly_common.poly_runs(tier) + [
+        # thin rings with generic 53-bit mantissas (exact sign from BigInt.tla): winding_order must follow the EXACT signed area
+        dict(name="thin", module="Gen_Orient", constants=dict(SeedLo=1 + 100 * (seed % 7), SeedHi=(100 if tier == "quick" else 600) + 100 * (seed % 7)),
+             invariants=["OrientLaws"])]
+    vf.simple_check("C05", tier, seed, t0, runs, RULE, ASSUME,
+                    nontrivial=lambda c: c["op"] == "kernel_big" or len(c["holes"]) > 0 or len(c["ext"]) > 4,
+                    require_counters=["winding_big_cases"])
 
 
 def replay(path, seed, t0):
